@@ -132,13 +132,16 @@ def run(tier, seed):
             with open(path, "w", newline="") as f:
                 f.write(text)
             for sname, sops in SETTINGS:
-                for kind in ("plain", "count"):
+                for kind in ("plain", "count", "count0", "count1"):
                     if kind == "plain":
                         hs.append("ZG\tc65536:p:cc\t%s\tf%s" % (sops, hexec.esc(path)))
                         hs.append("ZG\tc65536:p:cc\t%s\tA%s" % (sops, hexec.esc(text)))
                     else:
-                        hs.append("ZG\tc65536:p:cc\t%s\tn16:%s" % (sops, hexec.esc(path)))
-                        hs.append("ZG\tc65536:p:cc\t%s\tN16:%s" % (sops, hexec.esc(text)))
+                        c = {"count": 16, "count0": 0, "count1": 1}[kind]     # c < 2 on an instance that has fitting enabled
+                        if kind != "count" and sz % 5:
+                            continue
+                        hs.append("ZG\tc65536:p:cc\t%s\tn%d:%s" % (sops, c, hexec.esc(path)))
+                        hs.append("ZG\tc65536:p:cc\t%s\tN%d:%s" % (sops, c, hexec.esc(text)))
                     meta.append((sz, sname, kind))
         res = hexec.run(hs, variant="wrap", dangerous=True, timeout=20)
         for i, (sz, sname, kind) in enumerate(meta):
@@ -345,7 +348,8 @@ def replay(r, verbose=False):
             if r["entry"] == "plain":
                 hs = ["ZG\tc65536:p:cc\t%s\tf%s" % (sops, hexec.esc(path)), "ZG\tc65536:p:cc\t%s\tA%s" % (sops, hexec.esc(text))]
             else:
-                hs = ["ZG\tc65536:p:cc\t%s\tn16:%s" % (sops, hexec.esc(path)), "ZG\tc65536:p:cc\t%s\tN16:%s" % (sops, hexec.esc(text))]
+                c = {"count": 16, "count0": 0, "count1": 1}[r["entry"]]
+                hs = ["ZG\tc65536:p:cc\t%s\tn%d:%s" % (sops, c, hexec.esc(path)), "ZG\tc65536:p:cc\t%s\tN%d:%s" % (sops, c, hexec.esc(text))]
             res = hexec.run(hs, variant="wrap", dangerous=True, nproc=1, timeout=20)
             if verbose:
                 print([x[:80] for x in res[0]], "\n", [x[:80] for x in res[1]])
